@@ -47,3 +47,58 @@ func v2AliasCases() []scriptedCase {
 	}
 	return out
 }
+
+// Scripted cases for C04 (and the weighted-graph engines in it): a contextual tuple and a stored
+// tuple in the same (user, relation, object type) bucket, with the contextual object id sorting
+// before, after or equal to the stored one, and the linking tuples stored or contextual.  Engines
+// that merge the two sources (sorted merge in the bottom-up strategies, the contextual index of the
+// weighted-graph resolver) must treat every order alike.
+type splitCase struct {
+	cs           *Case
+	stored, ctxt []Tuple
+	reqs         []Req
+}
+
+func contextualOrderCases() []splitCase {
+	this := &Rewrite{K: "this"}
+	m := &Model{
+		Types: []string{"user", "group", "folder", "doc"},
+		Conds: []CondDef{},
+		Rels: []RelDef{
+			{T: "group", R: "member", Rw: this, Restr: []Restr{{T: "user"}}},
+			{T: "folder", R: "viewer", Rw: this, Restr: []Restr{{T: "user"}}}, // weight-two edges only: the bottom-up strategies apply
+			{T: "doc", R: "parent", Rw: this, Restr: []Restr{{T: "folder"}}},
+			{T: "doc", R: "viewer", Rw: &Rewrite{K: "ttu", TS: "parent", Rel: "viewer"}, Restr: []Restr{}},
+			{T: "doc", R: "editor", Rw: this, Restr: []Restr{{T: "group", Rel: "member"}}},
+			{T: "doc", R: "owner", Rw: this, Restr: []Restr{{T: "user"}}},
+		},
+	}
+	var out []splitCase
+	n := 0
+	for _, ord := range [][2]string{{"1", "2"}, {"2", "1"}, {"1", "1"}, {"10", "9"}} {
+		for _, linksCtx := range []bool{false, true} {
+			ci, si := ord[0], ord[1]
+			ctxt := []Tuple{tp("folder:"+ci, "viewer", "user:a"), tp("group:"+ci, "member", "user:a"), tp("doc:"+ci, "owner", "user:a")}
+			stored := []Tuple{tp("folder:"+si, "viewer", "user:a"), tp("group:"+si, "member", "user:a"), tp("doc:"+si, "owner", "user:a"),
+				tp("folder:3", "viewer", "user:b"), tp("doc:3", "parent", "folder:3")}
+			links := []Tuple{tp("doc:1", "parent", "folder:"+ci), tp("doc:2", "parent", "folder:"+si), tp("doc:1", "editor", "group:"+ci+"#member"), tp("doc:2", "editor", "group:"+si+"#member")}
+			if linksCtx {
+				ctxt = append(ctxt, links...)
+			} else {
+				stored = append(stored, links...)
+			}
+			var reqs []Req
+			for _, o := range []string{"doc:1", "doc:2", "doc:3", "doc:" + ci, "doc:" + si} {
+				for _, rel := range []string{"viewer", "editor", "owner"} {
+					for _, u := range []string{"user:a", "user:b"} {
+						reqs = append(reqs, Req{O: ParseObj(o), R: rel, U: ParseSubj(u), Ctx: Ctx{}})
+					}
+				}
+			}
+			all := append(append([]Tuple{}, stored...), ctxt...)
+			out = append(out, splitCase{&Case{N: 910000 + n, Model: m, Tuples: all}, stored, ctxt, reqs})
+			n++
+		}
+	}
+	return out
+}
